@@ -117,3 +117,28 @@ def graded_saliency(lead, N, lo=0.25, hi=2.0):
 
 def all_perms(K):
     return list(itertools.permutations(range(K)))
+
+
+LAYOUTS = ('C', 'F', 'perm', 'strided', 'neg')
+
+
+def relayout(x, kind):
+    """an array equal to x (same shape, dtype, values) with another memory layout:
+    C / F contiguous, axes permuted in memory, element stride 2 on the last axis, negative stride."""
+    x = np.asarray(x)
+    if kind == 'C' or x.ndim == 0:
+        out = np.ascontiguousarray(x)
+    elif kind == 'F':
+        out = np.asfortranarray(x)
+    elif kind == 'perm':
+        out = np.moveaxis(np.ascontiguousarray(np.moveaxis(x, 0, -1)), -1, 0)
+    elif kind == 'strided':
+        buf = np.zeros(x.shape[:-1] + (2 * x.shape[-1],), dtype=x.dtype)
+        buf[..., ::2] = x
+        out = buf[..., ::2]
+    elif kind == 'neg':
+        out = np.ascontiguousarray(x[..., ::-1])[..., ::-1]
+    else:
+        raise ValueError(kind)
+    assert out.shape == x.shape and out.dtype == x.dtype and np.array_equal(out, x, equal_nan=True)
+    return out
